@@ -23,10 +23,10 @@ from . import C09 as G9
 SPEC = {
     "modules": ["HC.Props.C08", "HC.Props.C09"],
     "extracted": ["Guards", "Consts", "Excepts", "Atomic"],
-    "technique": "Lean 4 invariants over all op sequences of the HTTP/2 send-path model (shared with C09) with the water marks, the push comparison and the pop release rule EXTRACTED from StreamBuffer: buffer bound, wait at the high-water mark, no release at an exhausted window, release on credit / reset / close, isolation of a waiting sender; tied by trace acceptance of the real H2Protocol and by monitors measuring held bytes and returned sends, plus end-to-end transport pressure on HTTP/1, WebSocket and HTTP/2 on both workers",
-    "level_text": "Proved in Lean for every interleaving (any number of streams, any write sizes up to c, any schedule of the send task and the reader): a stream's buffer stays below HIGH + 2c (extracted BUFFER_HIGH_WATER, push comparison and pop release rule); a write reaching the high-water mark waits, and a pop that takes nothing at an exhausted window does not release it; with the send task quiescent on an open connection a sender still waiting has bytes buffered on a non-reset stream without credit, so credit releases it; a stream reset by the client or abandoned by the server has its waiting sender's wake-up enabled in every reachable state, and after handle(Closed) every waiting sender's wake-up is enabled and new writes do not wait; whether ops of other streams, the send task or the reader are enabled does not depend on a stream's waiting sender.  Tie: exhaustive grid (54 cells) + generated pressure schedules of the real H2Protocol accepted op by op by the model; monitors on held bytes (len(StreamBuffer.buffer) and accepted-minus-delivered) and on sends still waiting at quiescence; end-to-end on both workers: paused transport / closed window on HTTP/1, WebSocket, HTTP/2, WebSocket-over-HTTP/2 with release by resume, credit, RST_STREAM, EOF and connection reset.",
+    "technique": "Lean 4 invariants over all op sequences of the HTTP/2 send-path model (shared with C09) with the water marks, the push comparison and the pop release rule EXTRACTED from StreamBuffer: buffer bound, wait at the high-water mark, no release at an exhausted window, release on credit / reset / close, isolation of a waiting sender; all of it over runs in which the priority library hands out a stream the tree does not know and the tree is rebuilt (extended machine, blocked status of the re-inserted streams extracted); tied by trace acceptance of the real H2Protocol and by monitors measuring held bytes and returned sends, plus end-to-end transport pressure on HTTP/1, WebSocket and HTTP/2 on both workers",
+    "level_text": "Proved in Lean for every interleaving (any number of streams, any write sizes up to c, any schedule of the send task and the reader): a stream's buffer stays below HIGH + 2c (extracted BUFFER_HIGH_WATER, push comparison and pop release rule); a write reaching the high-water mark waits, and a pop that takes nothing at an exhausted window does not release it; with the send task quiescent on an open connection a sender still waiting has bytes buffered on a non-reset stream without credit, so credit releases it; a stream reset by the client or abandoned by the server has its waiting sender's wake-up enabled in every reachable state, and after handle(Closed) every waiting sender's wake-up is enabled and new writes do not wait; whether ops of other streams, the send task or the reader are enabled does not depend on a stream's waiting sender; every one of these also over runs in which the priority tree is rebuilt at any time the library hands out a non-member (rebuild_keeps_waiting_streams_schedulable: every buffered stream is an unblocked member of the fresh tree, its pick enabled).  Tie: closed-window cells with the client's SETTINGS_MAX_FRAME_SIZE at 16384 and 2**24-1 (the bound is fixed, not the peer's); PRIORITY dependency loops that make priority 2.0.0 schedule a completed stream whilst another stream's sender waits with credit; exhaustive grid (54 cells) + generated pressure schedules of the real H2Protocol accepted op by op by the model; monitors on held bytes (len(StreamBuffer.buffer) and accepted-minus-delivered) and on sends still waiting at quiescence; end-to-end on both workers: paused transport / closed window on HTTP/1, WebSocket, HTTP/2, WebSocket-over-HTTP/2 with release by resume, credit, RST_STREAM, EOF and connection reset.",
     "level_note": "Trusted: as C09.  The HTTP/1 and WebSocket transport-level clause (send_lock held across write + drain: at most one write outstanding per connection) is NOT modelled in Lean; it is checked by the end-to-end monitors on both workers only (partial).  'Promptly' is 'within the same quiescence' (virtual time), not wall-clock latency.  A client half-close while the TRANSPORT is paused does not release a sender blocked in drain() (the transport, not hypercorn, owns that wait); the EOF release is checked under window pressure.",
-    "rule": "grid cell (window, release event, wait position) + distinct generated (profile, window, streams, app kinds, client actions, terminal event); non-trivial = some send() actually waited",
+    "rule": "grid cell (window, release event, wait position[, client SETTINGS_MAX_FRAME_SIZE 16384 / 2**24-1]) + PRIORITY-loop schedules (tree rebuilt whilst a sender waits) + distinct generated (profile, window, streams, app kinds, client actions, terminal event); non-trivial = some send() actually waited",
     "trusted": ["h2 4.4.1, priority 2.0.0, wsproto, h11 as libraries", "in-memory transports' pause/fail semantics (harness/core/runner.py)"],
     "partial": ["F73 (known): WebSocket-over-HTTP/2 control-frame replies pushed by the reader task can park the reader at the high-water mark",
                 "h1_held_bounded (HTTP/1 / WebSocket transport-level backpressure): monitored end-to-end on both workers, not proved in Lean"],
@@ -70,6 +70,34 @@ def grid() -> List[dict]:
     return out
 
 
+MAX_FRAME_EXTREMES = (16384, 2 ** 24 - 1)          # the range of SETTINGS_MAX_FRAME_SIZE (RFC 7540 6.5.2)
+
+
+def frame_size_grid() -> List[dict]:
+    """the bound is FIXED - it does not move with what the peer negotiates: the same closed-window cells with the client's
+    SETTINGS_MAX_FRAME_SIZE at both extremes (and INITIAL_WINDOW_SIZE 0 / a window that is used up), an application that
+    writes far more than any bound in pieces of 20 000 bytes, in the body and on the final drain"""
+    out = []
+    for mf in MAX_FRAME_EXTREMES:
+        for window in ("zero", "exhausted"):
+            for pos in ("push", "drain", "push_trio"):
+                iw = {"zero": 0, "exhausted": 20000}[window]
+                if pos.startswith("push"):
+                    app = [{"start": 200}] + [{"body": 20000, "more": True}] * 12 + [{"body": 10, "more": False}]
+                else:
+                    app = [{"start": 200}, {"body": 30000, "more": False}]
+                acts: List[dict] = [{"do": "open", "sid": 1, "app": app},
+                                    {"do": "open", "sid": 3, "app": [{"start": 200}, {"body": 5, "more": False}]},
+                                    {"do": "settle", "tag": "pressure"},
+                                    {"do": "win", "sid": 3, "n": 100},
+                                    {"do": "settle", "tag": "sibling"},
+                                    {"do": "win", "sid": 1, "n": 1}, {"do": "settle"}, {"do": "drain_all"}]
+                out.append({"seed": 100 + len(out), "density": 0.3, "trio_like": pos.endswith("trio"), "initial_window": iw, "max_frame": mf, "profile": "grid8mf",
+                            "actions": acts, "cell": [window, "credit", pos, f"max_frame={mf}"], "terminal": False,
+                            "apps": {"1": {"kind": "grid", "sizes": []}, "3": {"kind": "sibling", "sizes": [5]}}})
+    return out
+
+
 def grid_monitor(ctx: Ctx, sc: dict, res: dict) -> None:
     """cell-specific expectations on top of the generic monitors"""
     sig = {"layer": "direct", "cell": "/".join(sc["cell"])}
@@ -86,6 +114,14 @@ def grid_monitor(ctx: Ctx, sc: dict, res: dict) -> None:
     if sib and sib["quiet"]:
         if sib["ledger"]["end"].get(3, 0) != 1 or sib["ledger"]["data"].get(3, 0) != 5:
             ctx.violation("sibling_blocked_by_waiting_send", G9._case(sc), {"ledger": sib["ledger"], "apps": sib["apps"]}, sig)
+    if p and p["quiet"] and sc["cell"][2].startswith("push") and sc["profile"] == "grid8mf":
+        # 240 010 bytes offered against a closed / used-up window: the writes accepted so far stay within the fixed bound,
+        # whatever frame size the client advertises
+        a = p["apps"].get("1")
+        bound = G9._high() + 2 * 20000 + sc["initial_window"]
+        if a and a["written"] > bound:
+            ctx.violation("held_beyond_bound", G9._case(sc), {"accepted_whilst_the_window_is_closed": a["written"], "bound": bound, "bufs": p["bufs"],
+                                                             "client_max_frame_size": sc["max_frame"]}, {**sig, "measure": "accepted"})
     final = res["quiescent"][-1]
     if final["quiet"] and final["apps"].get("1", {}).get("waiting"):
         ctx.violation("send_never_returned", G9._case(sc), {"app": final["apps"]["1"], "bufs": final["bufs"]}, {"layer": "direct", "event": sc["cell"][1]})
@@ -104,6 +140,14 @@ def check_pairs(ctx: Ctx) -> None:
         ctx.evaluations += 1
         ctx.count("profile", "pair")
         fa, fb = ra["quiescent"][-1], rb["quiescent"][-1]
+        if "1" not in fa["apps"] or "1" not in fb["apps"]:
+            # the request never reached an application: the reader raised out of `handle()` (a defect of the code under test, reported
+            # as such), or the harness is broken (exit 2)
+            errs = {"a": ra["reader_error"], "b": rb["reader_error"]}
+            if not (errs["a"] or errs["b"]):
+                raise RuntimeError(f"C08 pair harness problem: no application was started: {ra['errors'][:2]} {rb['errors'][:2]}")
+            ctx.violation("reader_died", {"layer": "pair", "k": k}, errs, {"layer": "pair", "error": str(errs["a"] or errs["b"]).split(":")[0]})
+            continue
         if fa["apps"]["1"]["waiting"]:
             ctx.distinct(["pair", k])
         if not fa["apps"]["1"]["waiting"]:
@@ -131,6 +175,9 @@ def e2e_grid() -> List[dict]:
                 if proto == "wsh2" and phase == "final_drain":
                     continue
                 out.append({"layer": "e2e", "proto": proto, "pressure": "window", "phase": phase, "release": release})
+    # the bound does not move with the frame size the client advertises (SETTINGS_MAX_FRAME_SIZE at its maximum)
+    for release in ("credit", "rst"):
+        out.append({"layer": "e2e", "proto": "h2", "pressure": "window", "phase": "mid_body", "release": release, "max_frame": 2 ** 24 - 1})
     return out
 
 
@@ -168,7 +215,7 @@ def run_e2e(case: dict, worker: str) -> dict:
         window_pressure = case["pressure"] == "window"
         if proto in ("h2", "wsh2"):
             h2c = C.H2Client(initial_window=(0 if window_pressure and case["phase"] == "final_drain" else (CH + 5000 if window_pressure else 1 << 20)),
-                             auto_window=not window_pressure)
+                             auto_window=not window_pressure, max_frame=case.get("max_frame"))
             if not window_pressure:
                 h2c.conn.increment_flow_control_window(1 << 20)
         if case["pressure"] == "transport" and case["phase"] == "from_start":
@@ -280,7 +327,7 @@ def check_e2e(ctx: Ctx, cases: List[dict]) -> None:
             waited = len(sends) < (1 if case["phase"] == "final_drain" else NCH) or any(s[0] > m["released_at"] for s in app["send"])
             ctx.count("e2e.a_send_waited", waited)
             if waited:
-                ctx.distinct(["e2e", case["proto"], case["pressure"], case["phase"], case["release"], worker])
+                ctx.distinct(["e2e", case["proto"], case["pressure"], case["phase"], case["release"], worker, case.get("max_frame")])
             if accepted_during > bound:
                 ctx.violation("held_beyond_bound", cc, {"accepted_while_client_accepts_nothing": accepted_during, "bound": bound}, sig)
             pressure_sends = [s for s in app["send"] if s[0] <= m["released_at"]]
@@ -347,13 +394,17 @@ def check_ws_control_replies(ctx: Ctx) -> None:
 
 def run(ctx: Ctx) -> None:
     H.limit_memory()
-    cells = grid()
+    cells = grid() + frame_size_grid()
     ctx.exhaustive = True
     for lo in range(0, len(cells), 200):
         part = cells[lo: lo + 200]
         G9.check_direct(ctx, part, "C08")
     for sc in cells:          # cell-specific expectations need the results again: cheap, re-run
         grid_monitor(ctx, sc, H.run_scenario(sc))
+    # PRIORITY dependency loops: the priority tree is rebuilt whilst a sender waits on a stream with credit (seeded C08-7)
+    loops = H.loop_corpus() + [H.gen_loop_scenario(ctx.rng) for _ in range(ctx.budget(150, 1500))]
+    for lo in range(0, len(loops), 250):
+        G9.check_direct(ctx, loops[lo: lo + 250], "C08")
     scenarios = [H.gen_scenario(ctx.rng, "pressure") for _ in range(ctx.budget(1500, 10000))]
     for lo in range(0, len(scenarios), 250):
         G9.check_direct(ctx, scenarios[lo: lo + 250], "C08")
